@@ -64,6 +64,14 @@ type c17inst struct {
 // c17Tol: relative tolerance per family (0 = exact); transcendental kernels need only agree to float32 precision
 var c17Tol = map[string]float64{"unary-math": 2e-6}
 
+func clamp37(ks []int) []float64 {
+	o := make([]float64, len(ks))
+	for i, k := range ks {
+		o[i] = math.Min(math.Max(float64(k), 3), 7)
+	}
+	return o
+}
+
 func c17Build(d ref.DT, ks []int, lay string) *tensor.Dense {
 	b, err := atlas.Build(d, []int{2, 3}, c17Vals(d, ks), lay)
 	if err != nil {
@@ -334,7 +342,7 @@ func c17Instances() []c17inst {
 		in []int
 		f  func(x float64) float64
 	}
-	uns := []unDef{{"Square", c17A, func(x float64) float64 { return x * x }}, {"Cube", []int{1, 2, 3, 4, 2, 1}, func(x float64) float64 { return x * x * x }},
+	uns := []unDef{{"Square", []int{2, 4, 4, 6, 8, 10}, func(x float64) float64 { return x * x }}, {"Cube", []int{1, 2, 3, 4, 2, 1}, func(x float64) float64 { return x * x * x }},
 		{"Abs", c17A, func(x float64) float64 { return x }}, {"Sign", []int{0, 4, 4, 0, 8, 9}, func(x float64) float64 {
 			if x > 0 {
 				return 1
@@ -383,10 +391,10 @@ func c17Instances() []c17inst {
 	// clamp
 	out = append(out, c17inst{"unary", "Clamp", "contig", func(d ref.DT) ([]interface{}, bool, string) {
 		return resOf(tensor.Clamp(c17Build(d, c17A, "C"), d.Code(3), d.Code(7)))
-	}, func() []float64 { return []float64{3, 4, 4, 6, 7, 7} }, ordn},
+	}, func() []float64 { return clamp37(c17A) }, ordn},
 		c17inst{"unary", "Clamp", "iter", func(d ref.DT) ([]interface{}, bool, string) {
 			return resOf(tensor.Clamp(c17Build(d, c17A, "T"), d.Code(3), d.Code(7)))
-		}, func() []float64 { return []float64{3, 4, 4, 6, 7, 7} }, ordn})
+		}, func() []float64 { return clamp37(c17A) }, ordn})
 	// reductions over a (2,3,2) tensor: first / middle / last axis and all axes
 	rvals := []int{1, 2, 3, 4, 5, 6, 6, 5, 4, 3, 2, 1}
 	rshape := []int{2, 3, 2}
@@ -637,7 +645,10 @@ func c17Instances() []c17inst {
 				return nil, true, ""
 			}
 			return resOf(t, nil)
-		}, func() []float64 { return []float64{2, 6, 4, 8, 4, 10} }, all})
+		}, func() []float64 {
+			a := fl(c17A)
+			return []float64{a[0], a[3], a[1], a[4], a[2], a[5]}
+		}, all})
 	// native conversions
 	for i, nm := range []string{"Vector", "Matrix", "Tensor3", "Select0"} {
 		i, nm := i, nm
@@ -673,8 +684,25 @@ func c17Instances() []c17inst {
 }
 
 func runC17(r *core.Run) {
+	// value sets: operands a, b and exponents; every exact result fits every numeric type, b divides a and 12
+	type vset struct {
+		tag     string
+		a, b, p []int
+	}
+	sets := []vset{{"", c17A, c17B, c17P}}
+	if !isQuick(r) {
+		sets = append(sets, vset{"|vs2", []int{4, 2, 6, 12, 8, 10}, []int{2, 1, 3, 4, 2, 2}, []int{1, 2, 2, 1, 2, 1}})
+	}
+	defer func(a, b, p []int) { c17A, c17B, c17P = a, b, p }(c17A, c17B, c17P)
+	for _, vs := range sets {
+		c17A, c17B, c17P = vs.a, vs.b, vs.p
+		c17RunSet(r, vs.tag)
+	}
+}
+
+func c17RunSet(r *core.Run, tag string) {
 	insts := append(c17Instances(), c17More()...)
-	r.SetBound("instances", fmt.Sprintf("%d (family, operation, variant) instances x up to 18 element types", len(insts)))
+	r.SetBound("instances", fmt.Sprintf("%d (family, operation, variant) instances x up to 18 element types (thorough: x 2 value sets)", len(insts)))
 	fam := map[string]int{}
 	for _, in := range insts {
 		fam[in.family]++
@@ -685,7 +713,7 @@ func runC17(r *core.Run) {
 			continue
 		}
 		in := in
-		id := fmt.Sprintf("C17|%s|%s|%s", in.family, in.op, in.variant)
+		id := fmt.Sprintf("C17|%s|%s|%s%s", in.family, in.op, in.variant, tag)
 		if r.ReplayCase != "" && id != r.ReplayCase {
 			continue
 		}
